@@ -122,6 +122,9 @@ func genConcat(r *gen.R, validOnly bool) (mon.OpReq, Expect, bool) {
 		switch r.Intn(3) {
 		case 0:
 			ax = r.PickInt(rank, rank+1, -rank-1, -rank-2)
+			if r.Chance(0.15) {
+				ax = int(extremeAxis(r))
+			}
 		case 1:
 			if n > 1 && rank > 1 {
 				k := r.Range(1, n-1)
@@ -246,6 +249,9 @@ func genGather(r *gen.R, validOnly bool) (mon.OpReq, Expect, bool) {
 	axis := r.Range(0, rank-1)
 	d := x.Shape[axis]
 	ishape := r.Shape(0, 2, 3, 9)
+	if r.Chance(0.12) { // "index tensors of any rank"
+		ishape = r.Shape(3, 4, 3, 16)
+	}
 	idxDT := r.PickDT(ref.I64, ref.I64, ref.I32)
 	idx := ref.New(idxDT, ishape...)
 	for i := range idx.Bits {
@@ -262,6 +268,9 @@ func genGather(r *gen.R, validOnly bool) (mon.OpReq, Expect, bool) {
 	if !validOnly && r.Chance(0.2) {
 		if r.Bool() {
 			ax = r.PickInt(rank, rank+1, -rank-1, -rank-2)
+			if r.Chance(0.15) {
+				ax = int(extremeAxis(r))
+			}
 		} else if len(idx.Bits) > 0 {
 			idx.Bits[r.Intn(len(idx.Bits))] = ref.Wrap(idxDT, uint64(int64(r.PickInt(d, d+1, -d-1, -d-2, 100))))
 		}
